@@ -370,11 +370,11 @@ func (c *Client) Close() { c.Conn.Close() }
 
 type DialOpts struct {
 	Fragment int
-	Segment int
-	Gap     time.Duration
-	ALPN    []string
-	SNI     string
-	Timeout time.Duration
+	Segment  int
+	Gap      time.Duration
+	ALPN     []string
+	SNI      string
+	Timeout  time.Duration
 }
 
 func dialRaw(addr string, o DialOpts) (*RecConn, error) {
